@@ -428,6 +428,30 @@ COMPILED_FORMS = [EXT_SUFFIX, ".abi3.so", ".so", ".pyc", ".pyd", ".pyo", ".cpyth
 JUNK = ["README.md", "data.txt", ".hidden", "notes", "py.typed", "Makefile", "m.txt", "x.json"]
 
 
+DOTTED_DIRS = ["v1.2", "data.v2", "sub.d", "m.egg-info"]
+
+
+def gen_dotted_dir(rng, depth: int):
+    """Content of a directory with a dotted name: module files, maybe an __init__, maybe a (regular or init-less) sub-directory."""
+    es = [[rng.choice(MODNAMES) + ".py", F()]]
+    if rng.random() < 0.4:
+        es.append(["__init__.py", F()])
+    if rng.random() < 0.3:
+        es.append([rng.choice(MODNAMES) + ".pyi", F()])
+    if depth < 3 and rng.random() < 0.5:
+        inner = [[rng.choice(MODNAMES) + ".py", F()]]
+        if rng.random() < 0.5:
+            inner.append(["__init__.py", F()])
+        es.append([rng.choice(["sub", "deep", "v3.0"]), D(inner)])
+    seen, out = set(), []
+    for n, x in es:
+        if n not in seen:
+            seen.add(n)
+            out.append([n, x])
+    rng.shuffle(out)
+    return out
+
+
 def gen_init_files(rng, top_level: bool):
     """Entries that make a directory a package (or not)."""
     r = rng.random()
@@ -483,6 +507,9 @@ def gen_dir(rng, depth: int, top_level: bool, force_init=None, rich=1.0):
                     es.append([n, D([["__init__.py", F()]] if rng.random() < 0.5 else [])])
             else:
                 es.append([n + f, F()])
+    if rng.random() < 0.12:
+        # a directory whose name contains a dot (not importable): modules and sub-packages inside it
+        es.append([rng.choice(DOTTED_DIRS), D(gen_dotted_dir(rng, depth))])
     if rng.random() < 0.30 * rich:
         es.append([rng.choice(JUNK), F()])
     if rng.random() < 0.15 * rich:
@@ -991,6 +1018,13 @@ def targeted_cases():
         mk([[["aa", _pkg(["m.pyi", F()], ["m", _pkg(["x.py", F()])])]]], [0]),
         mk([[["aa", _pkg(["m.py", F()], ["m", D([["__init__.pyi", F()], ["x.py", F()]])])]]], [0]),
         mk([[["aa", _pkg(["a.b.py", F()], ["m.v2.py", F()], ["n.x.pyi", F()])]]], [0]),                # dots in file names
+        # directories with a dot in their name, at every level, below regular / namespace packages and sub-packages
+        mk([[["aa", _pkg(["v1.2", D([["api.py", F()], ["__init__.py", F()], ["sub", _pkg(["x.py", F()])]])], ["m.py", F()],
+                         ["sub", _pkg(["data.v2", D([["y.py", F()]])])])]]], [0]),
+        mk([[["aa", D([["core", D([["v1.2", D([["api.py", F()]])], ["api.py", F()]])], ["v1.2", D([["top.py", F()]])]])]]], [0]),
+        mk([[["aa", D([["core", D([["api.py", F()]])]])]], [["aa", D([["core", D([["data.v2", D([["y.py", F()], ["sub", _pkg(["z.py", F()])]])]])]])]]], [0, 1]),
+        mk([[["aa", D([["sub", _pkg(["v1.2", D([["api.py", F()]])], ["a.py", F()])], ["ns", D([["sub.d", D([["__init__.py", F()], ["k.py", F()]])], ["k.py", F()]])]])]]], [0]),
+        mk([[["aa", D([["v1.2", D([["deep", D([["x.py", F()]])]])], ["m.py", F()]])]]], [0]),
         # compiled names
         mk([[["aa", _pkg(["m" + EXT_SUFFIX, F()], ["n.abi3.so", F()], ["x.so", F()], ["deep.pyc", F()], ["sub.pyd", F()],
                          ["q.cpython-311-x86_64-linux-gnu.so", F()])]]], [0]),
@@ -1076,6 +1110,8 @@ def gen_ns_dir(rng, depth):
             es.append([n, D(inner)])
             if rng.random() < 0.08:
                 es.append([n + ".py", F()])
+    if rng.random() < 0.18:
+        es.append([rng.choice(DOTTED_DIRS), D(gen_dotted_dir(rng, depth))])
     seen, out = set(), []
     for n, x in es:
         if n not in seen:
@@ -1127,7 +1163,7 @@ LEVEL_NOTE = ("Static mode only (allow_inspection=False): compiled names are dis
 RULE = ("targeted layouts (witness of every finding, every precedence decision); exhaustive same-name clash family (subsets of "
         "m.py/m.pyi/m.so/m.pyc/m/ with and without __init__, every permutation of the package listing); seeded random layouts over 1-3 search paths "
         "+ .pth-added paths (regular/namespace/stub/pkgutil-style/module/compiled top-level forms, nested packages to depth 4, junk, __pycache__, "
-        "dotted and dot-file names); seeded namespace-heavy layouts (2-3 portions with overlapping sub-directories). Each layout is run under its own, "
+        "dotted file names, dot-files, directories with dotted names at every level holding modules and sub-packages); seeded namespace-heavy layouts (2-3 portions with overlapping sub-directories). Each layout is run under its own, "
         "the sorted, the reversed and random listing orders. non-trivial = at least 4 file-system nodes; distinct by canonical layout")
 TRUSTED = ["abstraction: the generated layout is both written to disk and passed to the model; listing order is imposed by wrapping os.scandir/os.listdir",
            "pth lines are pre-classified by the harness (absolute existing dir / relative existing dir / ignored by both sides)"]
